@@ -37,6 +37,19 @@ def run(prog, rep):
     rep.expect_min("C06.mc", 1)
     from .purity import row as _stateless_row
     rep.part(_stateless_row, prog, rep, "C06", 4)
+    # the factors of the joint density are the families' pdf; marginal_icdf is the families' icdf (unconditional variable) or a
+    # quantile of the model's own sample (conditional variable): the wiring of those methods, and of the sampler, is filed here too
+    from .shared import template_rows, conditional_rows
+    from vstat.report import Relabel
+    template_rows(prog, rep, "C06.template", ["pdf", "icdf", "draw_sample"], 80)
+    conditional_rows(prog, rep, "C06.conditional", ["pdf", "draw_sample"], 5)
+    from . import c07
+    smp = Relabel(rep, "C06.sampler")
+    rep.part(c07.chain, prog, smp)
+    rep.part(c07.size, prog, smp)
+    rep.expect_min("C06.sampler", 6)
+    rep.explanation += (" C06.sampler: marginal_icdf of a conditional variable is a quantile of model.draw_sample - the rows of C07 for the joint sampler "
+                        "(each conditional column drawn given column conditional_on[i] of the same rows; vector parameters give one draw per value).")
 
 def pdf_chain(prog, rep):
     fn = prog.func(f"{GHM}.pdf")
